@@ -158,7 +158,7 @@ def origins(body, local, defs=None, depth=0, seen=None):
        ('static', did, mutable) | ('const',) | ('unknown',)"""
     defs = defs or local_defs(body)
     seen = seen or set()
-    if local in seen or depth > 12:
+    if local in seen or depth > 40:
         return {("unknown",)}
     seen = seen | {local}
     if 1 <= local <= body["arg_count"]:
